@@ -65,16 +65,46 @@ func (l *lineBuf) split() []string {
 
 // runOne executes one random trace and returns its event lines, the schedule
 // and the number of determinism differences found by re-executing it.
-func runOne(seed int64, prof Profile, steps, stabilize, tr int, sum *RunSummary) ([]string, *Cluster) {
+var scenarioWish = map[string]Wish{
+	"stale-leader":         {MinNodes: 3, Async: -1, Tiny: 10, Spare: 0},
+	"lagging-snapshot":     {MinNodes: 3, Async: -1, Tiny: 20, Spare: 20},
+	"conf-lagging-applier": {MinNodes: 3, MaxNodes: 3, Async: 60, Tiny: 0, Spare: 100, NoLearner: true},
+	"disk-stall":           {MinNodes: 3, MaxNodes: 3, Async: 100, Tiny: 10, Spare: 0},
+	"vote-race":            {MinNodes: 3, Async: 50, Tiny: 0, Spare: 0},
+	"pagination":           {MinNodes: 2, MaxNodes: 3, Async: 30, Tiny: 100, Spare: 0},
+	"transfer":             {MinNodes: 3, Async: -1, Tiny: 0, Spare: 0, NoLearner: true},
+	"reads":                {MinNodes: 2, Async: 30, Tiny: 0, Spare: 0},
+	"crash-points":         {MinNodes: 3, MaxNodes: 3, Async: 50, Tiny: 0, Spare: 0},
+	"flow":                 {MinNodes: 2, MaxNodes: 3, Async: 30, Tiny: 100, Spare: 0},
+}
+
+func runOne(seed int64, prof Profile, steps, stabilize, tr int, sum *RunSummary, scen string) ([]string, *Cluster) {
 	r := rand.New(rand.NewSource(seed))
-	cl := GenCluster(r, prof, seed)
+	wish := noWish
+	var sc *scenario
+	for i := range scenarios {
+		if scenarios[i].name == scen {
+			sc = &scenarios[i]
+			wish = scenarioWish[scen]
+		}
+	}
+	cl := GenCluster(r, prof, seed, wish)
+	if sc != nil {
+		cl.Profile = "scenario:" + scen
+	}
 	lb := &lineBuf{}
 	c := NewCluster(cl, lb, tr)
 	d := NewDriver(c, r, prof)
 	c.Init()
-	for i := 0; i < steps; i++ {
-		if !d.Step() {
-			break
+	if sc != nil {
+		sc.run(d)
+		d.unfreeze()
+		d.heal()
+	} else {
+		for i := 0; i < steps; i++ {
+			if !d.Step() {
+				break
+			}
 		}
 	}
 	if stabilize > 0 {
@@ -157,8 +187,18 @@ func cmdRandom(args []string) {
 			open(i)
 		}
 		pn := *profile
+		scen := ""
 		if pn == "mix" {
-			pn = names[i%len(names)]
+			// alternate plain weighted-random profiles and scenario drivers
+			if i%2 == 0 {
+				pn = names[(i/2)%len(names)]
+			} else {
+				scen = scenarios[(i/2)%len(scenarios)].name
+				pn = "base"
+			}
+		} else if strings.HasPrefix(pn, "scenario:") {
+			scen = strings.TrimPrefix(pn, "scenario:")
+			pn = "base"
 		}
 		prof, ok := profiles[pn]
 		if !ok {
@@ -166,7 +206,10 @@ func cmdRandom(args []string) {
 			os.Exit(2)
 		}
 		s := *seed*1000003 + int64(i)
-		lines, c := runOne(s, prof, *steps, *stabilize, i+1, &sum)
+		lines, c := runOne(s, prof, *steps, *stabilize, i+1, &sum, scen)
+		if scen != "" {
+			pn = "scenario:" + scen
+		}
 		for _, l := range lines {
 			w.WriteString(l)
 			w.WriteByte('\n')
